@@ -368,7 +368,9 @@ impl MerkleTree {
         };
         let mut untrusted_sub_tree = false;
         if let Some(indexed) = indexed.as_ref() {
-            if seek.is_some() && upgrade.is_some() && indexed.index >= from {
+            // NB: compare the last block under the requested node, not the node's own
+            // index: a tree node whose span reaches into the upgrade must be refused too.
+            if seek.is_some() && upgrade.is_some() && indexed.last_index * 2 >= from {
                 return Err(HypercoreError::InvalidOperation {
                     context: "Cannot both do a seek and block/hash request when upgrading"
                         .to_string(),
